@@ -43,6 +43,13 @@ def maxSaltLen : Nat := Consts.spake2pSaltLen
 /-- `SPAKE2P_ITERATION_COUNT`: what a basic window announces -/
 def builtinIterations : Nat := Consts.spake2pIterationCount
 
+/-- `OpenCommissioningWindow` parameter bounds of the cluster handler (`dm/clusters/adm_comm.rs`) -/
+def admMinIterations : Nat := Consts.admMinPbkdfIterations
+def admMaxIterations : Nat := Consts.admMaxPbkdfIterations
+def admMinSaltLen : Nat := Consts.admMinPakeSaltLen
+def admMaxSaltLen : Nat := Consts.admMaxPakeSaltLen
+def admVerifierLen : Nat := Consts.admPakeVerifierLen
+
 /-! ## MRP timing (`transport/mrp.rs`, `Session::rx_timeout_ms`) -/
 
 /-- `delay = delay * MRP_BACKOFF_BASE.0 / MRP_BACKOFF_BASE.1`, `n` times -/
@@ -216,6 +223,11 @@ inductive Op
   | openWin (pw secs : Nat)
   /-- `Pase::open_comm_window`: caller-supplied verifier of class `pw`, salt length, iteration count, discriminator -/
   | openEnh (pw secs saltLen iterations discriminator : Nat)
+  /-- the command `OpenCommissioningWindow` through `AdminCommHandler::handle_open_commissioning_window`
+  (on a session that is not a CASE session); `verifierLen` = length of the PAKEPasscodeVerifier field -/
+  | cmdOpenEnh (pw secs saltLen iterations discriminator verifierLen : Nat)
+  /-- the command `OpenBasicCommissioningWindow` through `AdminCommHandler::handle_open_basic_commissioning_window` -/
+  | cmdOpenBasic (pw secs : Nat)
   /-- `close_comm_window` (RevokeCommissioning) -/
   | revoke
   | tick (ms : Nat)
@@ -244,6 +256,10 @@ inductive Out
   | errBusy
   | errInvalidCommand
   | errConstraint
+  /-- cluster status `PAKEParameterError` -/
+  | errPakeParam
+  /-- cluster status `Busy` -/
+  | errClusterBusy
   | pbkdfResp (ctx : Nat)
   | pake2 (pB : Nat)
   | statusSuccess
@@ -395,21 +411,40 @@ def pbkdfNew (s : St) (x : Nat) (r : Req) (v : Option VClass) : St × Out :=
             { exch := x, stage := .waitPake1 ctx, since := s.now, mrp := reqParams defaultMrp r }, .pbkdfResp ctx)
         else (recordFailure { s with table := release s.table x }, .none)
 
+/-- `Pase::open_basic_comm_window` (as called by `Matter::open_basic_comm_window`: built-in iteration
+count, a fresh 32-byte salt) -/
+def openWinCore (s : St) (pw secs : Nat) : St × Out :=
+  if s.window.isSome then (s, .errBusy)
+  else if secs < minWindowSecs || secs > maxWindowSecs then (s, .errInvalidCommand)
+  else ({ s with window := some { id := s.fresh, pw := pw, expiry := s.now + secs * 1000, failures := 0,
+                                  enhanced := false, iterations := builtinIterations, saltLen := maxSaltLen },
+                 fresh := s.fresh + 1 }, .ok)
+
+/-- `Pase::open_comm_window` -/
+def openEnhCore (s : St) (pw secs saltLen iterations discriminator : Nat) : St × Out :=
+  if s.window.isSome then (s, .errBusy)
+  else if secs < minWindowSecs || secs > maxWindowSecs then (s, .errInvalidCommand)
+  else if saltLen < minSaltLen || saltLen > maxSaltLen then (s, .errConstraint)
+  else ({ s with window := some { id := s.fresh, pw := pw, expiry := s.now + secs * 1000, failures := 0,
+                                  enhanced := true, iterations := iterations, saltLen := saltLen,
+                                  discriminator := discriminator },
+                 fresh := s.fresh + 1 }, .ok)
+
 def step (s : St) : Op → St × Out
-  | .openWin pw secs =>
-    if s.window.isSome then (s, .errBusy)
-    else if secs < minWindowSecs || secs > maxWindowSecs then (s, .errInvalidCommand)
-    else ({ s with window := some { id := s.fresh, pw := pw, expiry := s.now + secs * 1000, failures := 0,
-                                    enhanced := false, iterations := builtinIterations, saltLen := maxSaltLen },
-                   fresh := s.fresh + 1 }, .ok)
-  | .openEnh pw secs saltLen iterations discriminator =>
-    if s.window.isSome then (s, .errBusy)
-    else if secs < minWindowSecs || secs > maxWindowSecs then (s, .errInvalidCommand)
-    else if saltLen < minSaltLen || saltLen > maxSaltLen then (s, .errConstraint)
-    else ({ s with window := some { id := s.fresh, pw := pw, expiry := s.now + secs * 1000, failures := 0,
-                                    enhanced := true, iterations := iterations, saltLen := saltLen,
-                                    discriminator := discriminator },
-                   fresh := s.fresh + 1 }, .ok)
+  | .openWin pw secs => openWinCore s pw secs
+  | .openEnh pw secs saltLen iterations discriminator => openEnhCore s pw secs saltLen iterations discriminator
+  | .cmdOpenEnh pw secs saltLen iterations discriminator verifierLen =>
+    -- the PAKE parameters are validated up front (`PAKEParameterError`)
+    if iterations < admMinIterations || iterations > admMaxIterations then (s, .errPakeParam)
+    else if saltLen < admMinSaltLen || saltLen > admMaxSaltLen then (s, .errPakeParam)
+    else if verifierLen != admVerifierLen then (s, .errPakeParam)
+    else
+      -- an expired window is closed first, then `Pase::open_comm_window`; `Busy` becomes the cluster status
+      let r := openEnhCore (checkWindowTimeout s) pw secs saltLen iterations discriminator
+      (r.1, if r.2 = .errBusy then .errClusterBusy else r.2)
+  | .cmdOpenBasic pw secs =>
+    let r := openWinCore (checkWindowTimeout s) pw secs
+    (r.1, if r.2 = .errBusy then .errClusterBusy else r.2)
   | .revoke => ({ s with window := none }, .ok)
   | .tick ms => ({ s with now := s.now + ms }, .none)
   | .poll => (checkWindowTimeout s, .none)
